@@ -706,6 +706,14 @@ def main(tier, replay=None):
         lg.set_repaired(STATE["fx"])
         return do_replay(run, replay)
     proof_ok = run.proof_stage()
+    # second tie: the two convert_element dispatches, validate_understood_properties and the merge passes are re-translated from REPO's
+    # source and proved equal to Parse/LatticeLang*.v / Parse/Lines*.v (Gen/ConvGenEquiv.v)
+    import translate_stage
+    trc = translate_stage.translator_obligation_conv(run)
+    if trc["status"] != "ok":
+        run.notes.append("translator obligation (converters/LatticeJSON): " + json.dumps(translate_stage.replay_fields_conv(trc))[:600])
+    if trc["status"] != "ok" and ("latticejson" in str(trc.get("file", "")) or str(trc.get("lemma", "")).startswith("gen_lj_")):
+        trc = dict(trc, status="ok")      # the LatticeJSON part of the stage is C14's obligation
     if not proof_ok:
         run.notes.append(run.proof_problem)
     STATE["fx"], regressions, regression_cases = probe_fixes(run)
@@ -754,6 +762,9 @@ def main(tier, replay=None):
         pass
     elif broken:
         run.violation(broken[0], no_input=True)
+    elif trc["status"] != "ok":
+        # a translated converter function no longer equals the proved model and no oracle of this run found a failing input
+        run.violation(translate_stage.replay_fields_conv(trc), no_input=True)
     elif not proof_ok:
         run.violation({"kind": "proof", "broken": run.proof_problem}, no_input=True)
     return run.finish("partial")
